@@ -217,6 +217,7 @@ func runC07(w *World) *Result {
 	c07Lookup(w, cf, r, "R-C07-lookup")
 	c07Decl(w, cf, r)
 	c07Place(w, cf, r)
+	c07HeaderOrder(w, cf, r, "R-C07-decl")
 	c07Public(w, cf, r, "R-C07-public")
 	c07Predicate(w, r, "R-C07-public")
 	return r
@@ -928,7 +929,13 @@ func c07Place(w *World, cf *ctxFacts, r *Result) {
 			}
 		}
 		if has {
-			r.Ok(rule, "place:final-return", w.Pos(fn.Pos()), "a value-returning function must end in a return statement (tested on the finished body)")
+			// and no path of the callback reports success for the finished body of a
+			// value-returning function without having passed that test
+			if why := finalReturnEscapes(fn, retTag); why != "" {
+				r.Bad(rule, "place:final-return", w.Pos(fn.Pos()), why)
+			} else {
+				r.Ok(rule, "place:final-return", w.Pos(fn.Pos()), "a value-returning function must end in a return statement: every success path of the block callback for the finished body of a function with results passes the test of the last statement's tag")
+			}
 		} else {
 			r.Bad(rule, "place:final-return", w.Pos(fn.Pos()), "nothing tests that a value-returning function ends in a return: it could fall off its end")
 		}
@@ -2173,4 +2180,175 @@ func firstRuneOfParam(v ssa.Value, fn *ssa.Function) bool {
 		return callee != nil && callee.Pkg != nil && callee.Pkg.Pkg.Path() == "unicode/utf8" && callee.Name() == "DecodeRuneInString" && len(c.Call.Args) == 1 && isParam(c.Call.Args[0])
 	}
 	return false
+}
+
+// finalReturnEscapes: in the block callbacks of fn, is a success result reachable when the
+// function has results and the body is finished, without the edge on which the last
+// statement's tag equals RETURN?
+func finalReturnEscapes(fn *ssa.Function, retTag string) string {
+	for _, a := range fn.AnonFuncs {
+		cut := map[[2]*ssa.BasicBlock]bool{}
+		tested := false
+		for _, b := range a.Blocks {
+			c, neg := condOf(b)
+			if c == nil {
+				continue
+			}
+			t, f := b.Succs[0], b.Succs[1]
+			if neg {
+				t, f = f, t
+			}
+			switch x := c.(type) {
+			case *ssa.Parameter:
+				if isBool(x.Type()) {
+					cut[[2]*ssa.BasicBlock{b, f}] = true // not the finished body
+				}
+			case *ssa.BinOp:
+				// len(results) > 0 / != 0 / == 0
+				if lc, ok := x.X.(*ssa.Call); ok {
+					if bi, ok := lc.Call.Value.(*ssa.Builtin); ok && bi.Name() == "len" {
+						if k, ok := x.Y.(*ssa.Const); ok && k.Value != nil && k.Int64() == 0 {
+							if sl, ok := lc.Call.Args[0].Type().Underlying().(*types.Slice); ok && isNamed(sl.Elem(), "ValueType") {
+								switch x.Op {
+								case token.GTR, token.NEQ:
+									cut[[2]*ssa.BasicBlock{b, f}] = true
+								case token.EQL, token.LEQ:
+									cut[[2]*ssa.BasicBlock{b, t}] = true
+								}
+							}
+						}
+					}
+				}
+				for _, side := range []ssa.Value{x.X, x.Y} {
+					if k, ok := side.(*ssa.Const); ok && k.Value != nil && k.Value.Kind() == constant.String && constant.StringVal(k.Value) == retTag && isNamed(k.Type(), "StatementType") {
+						tested = true
+						switch x.Op {
+						case token.EQL:
+							cut[[2]*ssa.BasicBlock{b, t}] = true
+						case token.NEQ:
+							cut[[2]*ssa.BasicBlock{b, f}] = true
+						}
+					}
+				}
+			}
+		}
+		if !tested {
+			continue
+		}
+		// success points: return blocks (or phi predecessors) whose error result is nil
+		var check func(v ssa.Value, blk *ssa.BasicBlock, depth int) string
+		check = func(v ssa.Value, blk *ssa.BasicBlock, depth int) string {
+			if depth > 4 {
+				return ""
+			}
+			switch x := v.(type) {
+			case *ssa.Const:
+				if x.IsNil() && (blk == a.Blocks[0] || reachableFromWithout(a.Blocks[0], cut, blk)) {
+					return "the block callback of " + FuncName(fn) + " can report success for the finished body of a function with results without testing that its last statement is a return (an empty or comment-only body skips the test): the function falls off its end and the caller reads a stale result"
+				}
+			case *ssa.Phi:
+				for i, e := range x.Edges {
+					pred := x.Block().Preds[i]
+					if cut[[2]*ssa.BasicBlock{pred, x.Block()}] {
+						continue
+					}
+					if why := check(e, pred, depth+1); why != "" {
+						return why
+					}
+				}
+			}
+			return ""
+		}
+		for _, b := range a.Blocks {
+			ret, ok := b.Instrs[len(b.Instrs)-1].(*ssa.Return)
+			if !ok || len(ret.Results) == 0 {
+				continue
+			}
+			if why := check(ret.Results[len(ret.Results)-1], b, 0); why != "" {
+				return why
+			}
+		}
+	}
+	return ""
+}
+
+// c07HeaderOrder: a construct that introduces variables of its own (loop variables made
+// with the Variable constructor in the parse function itself) declares them only after
+// every expression of its header has been parsed: no expression-parsing call of that
+// function can run after such a declaration (the body is parsed as a block, which is
+// allowed). Otherwise `for i := range s[i:]` sees its own counter.
+func c07HeaderOrder(w *World, cf *ctxFacts, r *Result, rule string) {
+	ppkg := w.Pkgs["parser"].Types
+	isExprParser := func(callee *ssa.Function) bool {
+		if callee == nil || pkgOf(callee) != ppkg || callee.Signature.Results().Len() < 1 {
+			return false
+		}
+		return isNamed(callee.Signature.Results().At(0).Type(), "Expression")
+	}
+	// values built by the Variable constructor in this function
+	n := 0
+	for _, fn := range w.Funcs("parser") {
+		var decls []*ssa.Call
+		for _, m := range cf.mutations(fn) {
+			c, ok := m.ins.(*ssa.Call)
+			if !ok {
+				continue
+			}
+			made := false
+			for _, a := range c.Call.Args {
+				vals := []ssa.Value{a}
+				vals = append(vals, variadicElems(a)...)
+				for _, v := range vals {
+					if vc, ok := v.(*ssa.Call); ok {
+						if callee := vc.Call.StaticCallee(); callee != nil && pkgOf(callee) == ppkg && isNamed(callee.Signature.Results().At(0).Type(), "Variable") && vc.Parent() == fn {
+							made = true
+						}
+					}
+				}
+			}
+			if made {
+				decls = append(decls, c)
+			}
+		}
+		if len(decls) == 0 {
+			continue
+		}
+		perFn := 0
+		for _, d := range decls {
+			perFn++
+			n++
+			key := fmt.Sprintf("header:%s#%d", FuncName(fn), perFn)
+			late := ""
+			for _, b := range fn.Blocks {
+				for i, ins := range b.Instrs {
+					p, ok := ins.(*ssa.Call)
+					if !ok || !isExprParser(p.Call.StaticCallee()) {
+						continue
+					}
+					// can p run after d?
+					after := false
+					if b == d.Block() {
+						for j, x := range b.Instrs {
+							if x == d {
+								after = i > j
+							}
+						}
+					} else if d.Block().Dominates(b) || reachableFromWithout(d.Block(), nil, b) {
+						after = true
+					}
+					if after {
+						late = fmt.Sprintf("%s at %s", p.Call.StaticCallee().Name(), w.Pos(p.Pos()))
+					}
+				}
+			}
+			if late == "" {
+				r.Ok(rule, key, w.Pos(d.Pos()), "the construct's own variable is declared after the last expression of its header was parsed")
+			} else {
+				r.Bad(rule, key, w.Pos(d.Pos()), "the construct declares its own variable and parses a header expression afterwards ("+late+"): the expression can refer to the variable it helps to define (for i := range s[i:])")
+			}
+		}
+	}
+	if n == 0 {
+		r.Bad(rule, "header:none", "-", "no construct declaring variables of its own found")
+	}
 }
